@@ -158,3 +158,15 @@ def verify_hyperparameters(num_buckets=None,
         raise ValueError(
             "Monotonicities should be pairs of be indices in range "
             "[0, num_buckets). They are: {}".format(monotonicities))
+    # The projection orders buckets topologically, which is only possible for
+    # an acyclic set of pairs. Repeatedly drop the pairs whose smaller bucket is
+    # not required to be larger than any remaining one; what cannot be dropped
+    # lies on (or behind) a cycle.
+    remaining = set((i, j) for (i, j) in monotonicities)
+    while remaining:
+      has_smaller = set(j for (_, j) in remaining)
+      resolved = set((i, j) for (i, j) in remaining if i not in has_smaller)
+      if not resolved:
+        raise ValueError(
+            "Circular monotonicity constraints: {}".format(monotonicities))
+      remaining -= resolved
